@@ -331,3 +331,73 @@ def _mk_sfl(with_set):
 
 _mk_sfl(True)
 _mk_sfl(False)
+
+
+# ================================================================================================== C02: the files of one performance
+# PerformanceEntry.files: for every patch of the performance, in patch order, its program file, then - behind all programs - the sample
+# files of every patch, again in patch order; ONE context (one `_seen_sample_indices` set) serves all patches of the performance; the
+# list is remembered.  Proved for performances of 1 and 2 patches; the two per-patch decoders are abstract (the sample one is under
+# contract above: SampleFileListAdapter._decode).
+_PF = "smpl_extract.roland.s7xx.performance_entry:"
+_PATCH = ("obj", "PatchEntryToken", {"id": "int"})
+
+
+@contract("construct:ProgramFileAdapter#new", abstract=True, note="constructing the program adapter (no state)")
+def _pfa_new(c):
+    c.param("subcon", ("drop",))
+    c.returns(("obj", "ProgramFileAdapterToken", {}))
+    c.modifies()
+
+
+@contract("construct:SampleFileListAdapter#new", abstract=True, note="constructing the sample-list adapter (no state)")
+def _sfla_new(c):
+    c.param("subcon", ("drop",))
+    c.returns(("obj", "SampleFileListAdapterToken", {}))
+    c.modifies()
+
+
+@contract(_PF + "ProgramFileAdapter._decode#tag", abstract=True, assumed=True, note="the program file of one patch (identified by the patch)")
+def _pfa_dec(c):
+    c.param("patch", _PATCH)
+    c.param("context", ("cdict", {"_": ("cdict", {"_seen_sample_indices": ("drop",)})}))
+    c.param("path", "str")
+    c.returns("int")
+    c.ensures("result == uf_int('program_of_patch', patch.id)")
+    c.modifies()
+
+
+@contract(_PF + "SampleFileListAdapter._decode#tag", abstract=True, assumed=False,
+          note="the sample files of one patch: SampleFileListAdapter._decode is under contract of its own; here its result is a list identified by the patch")
+def _sfla_dec(c):
+    c.param("patch", _PATCH)
+    c.param("context", ("cdict", {"_": ("cdict", {"_seen_sample_indices": ("drop",)})}))
+    c.param("path", "str")
+    c.returns(("list", "int"))
+    c.ensures("len(result) == uf_int('sample_count_of_patch', patch.id) and forall(0, len(result), lambda i: result[i] == uf_int('sample_of_patch', patch.id, i))")
+    c.modifies()
+
+
+def _mk_perf_files(n):
+    @contract(_PF + f"PerformanceEntry.files[patches={n}]", source_key=_PF + "PerformanceEntry.files", props=["C02"], proof_only=True)
+    def _pfiles(c):
+        c.self_obj(("self", _PF + "PerformanceEntry", {"_patch_entries": ("clist", [_PATCH] * n), "_files": ("const", None), "_routines": ("cdict", {}),
+                                                      "_f_patch_entries": ("obj", "MustNotBeCalled", {}), "_fat": ("drop",)}))
+        c.use = {_PF + "PerformanceEntry.patch_entries": "inline"}
+        c.abstract_calls = {"ProgramFileAdapter": "construct:ProgramFileAdapter#new", "SampleFileListAdapter": "construct:SampleFileListAdapter#new",
+                            "sc_program._decode": _PF + "ProgramFileAdapter._decode#tag", "sc_samples._decode": _PF + "SampleFileListAdapter._decode#tag"}
+        c.define("prog", ["k"], "uf_int('program_of_patch', self._patch_entries[k].id)")
+        c.define("cnt", ["k"], "uf_int('sample_count_of_patch', self._patch_entries[k].id)")
+        c.define("smp", ["k", "i"], "uf_int('sample_of_patch', self._patch_entries[k].id, i)")
+        total = " + ".join(f"cnt({k})" for k in range(n))
+        c.ensures(f"len(result) == {n} + {total}", "one-program-per-patch-plus-every-patch's-samples")
+        for k in range(n):
+            c.ensures(f"result[{k}] == prog({k})", f"program-of-patch-{k}-in-patch-order")
+            before = " + ".join([str(n)] + [f"cnt({j})" for j in range(k)])
+            c.ensures(f"forall(0, cnt({k}), lambda i: result[{before} + i] == smp({k}, i))", f"samples-of-patch-{k}-behind-the-programs-in-patch-order")
+        c.ensures("self._files is result", "remembered")
+        c.modifies("self._files")
+    return _pfiles
+
+
+for _n in (1, 2):
+    _mk_perf_files(_n)
